@@ -128,25 +128,32 @@ def server_part(ctx):
         mode = ['block', 'forbidden'][i % 2]
         lst = rng.sample(POOL[:4] + ['10.0.0.1', '203.0.113.7', '::1'], rng.randint(1, 3))
         cache = rng.random() < 0.5
-        conf = '\n'.join(['server {', '  address "127.0.0.1"', '  port 8080', '  threads 2', '  log {', '    level "error"', '    console false', '  }',
+        conf = '\n'.join(['server {', '  address "127.0.0.1"', '  port 8080', '  threads 8', '  log {', '    level "error"', '    console false', '  }',
                           '  blacklist {', '    file "@FIX@/bl.txt"', '    mode "%s"' % mode, '  }'] +
                          (['  cache {', '    size 1M', '    time 60', '  }'] if cache else []) +
                          ['  route /f {', '    file "@FIX@/page.html"', '  }', '  route /r {', '    redirect "/elsewhere"', '  }',
-                          '  route /d/* {', '    directory "@FIX@/dir"', '  }', '  route /p {', '    proxy "@UP@"', '  }', '}']) + '\n'
+                          '  route /d/* {', '    directory "@FIX@/dir"', '  }', '  route /p {', '    proxy "@UP@"', '  }',
+                          '  route /w {', '    file "@FIX@/page.html"', '    websocket "@UP@"', '  }', '}']) + '\n'
         fixtures = ','.join(['%s:%s' % (hx('bl.txt'), hx('\n'.join(lst) + '\n')), '%s:%s' % (hx('page.html'), hx('PAGE')),
                              '%s:%s' % (hx('dir/x.txt'), hx('DIRFILE'))])
         reqs = []
         for _ in range(6):
             peer = rng.choice(POOL[:4])
             xff = rng.choice([None, None, rng.choice(POOL), '%s, %s' % (rng.choice(POOL), rng.choice(POOL + ['::1', 'unknown']))])
-            target = rng.choice(['/f', '/r', '/d/x.txt', '/p'])
-            reqs.append((peer, xff, target))
+            target = rng.choice(['/f', '/r', '/d/x.txt', '/p', '/w'])
+            reqs.append((peer, xff, target, False))
+        # WebSocket upgrade requests: to the route with a `websocket` target (tunnelled unless blacklisted) and to one
+        # without (closed without a response). Every tunnel keeps a worker of the real server busy, hence only a few.
+        for _ in range(3):
+            peer = rng.choice(POOL[:4])
+            xff = rng.choice([None, None, rng.choice(POOL)])
+            reqs.append((peer, xff, rng.choice(['/w', '/w', '/f']), True))
         # an unlisted client fetches everything first, so that cached answers exist when the cache is on
-        warm = [('127.0.0.77', None, t) for t in ('/f', '/d/x.txt')]
+        warm = [('127.0.0.77', None, t, False) for t in ('/f', '/d/x.txt')]
         allr = warm + reqs
-        toks = set(lst) | {e.strip() for _, x, _ in allr if x for e in x.split(',')}
+        toks = set(lst) | {e.strip() for _, x, _, _ in allr if x for e in x.split(',')}
         ipmap = ','.join('%s=%s' % (hx(t), hx(canon6(t))) for t in sorted(toks) if canon6(t))
-        lines.append('srv %s %s %s %s' % (hx(conf), fixtures, ','.join('%s:%s:%s:%s' % (hx('x'), hx(t), hx(p), hx(x) if x else '-') for p, x, t in allr),
+        lines.append('srv %s %s %s %s' % (hx(conf), fixtures, ','.join('%s:%s:%s:%s:-:%s' % (hx('x'), hx(t), hx(p), hx(x) if x else '-', 'ws' if w else '-') for p, x, t, w in allr),
                                           ipmap or '-'))
         meta.append((mode, lst, allr))
     im = ctx.impl(lines)
@@ -164,10 +171,14 @@ def server_part(ctx):
             ctx.report({'line': line[:4000], 'kind': 'server-e2e'}, b[:300], 'one answer per request', cls='bl-server',
                        failing_input=b in ('PANIC', 'DIED', 'TIMEOUT'), what='the config-driven server did not answer: ' + b[:100])
             continue
-        for (peer, xff, target), g in zip(allr, got):
+        for (peer, xff, target, ws), g in zip(allr, got):
             fwd = [canon6(e.strip()) or e.strip() for e in (xff or '').split(',')]
             listed_peer, listed_fwd = peer in lst, any(e in lst for e in fwd)
             if listed_peer and mode == 'block':
+                want = 'dropped'
+            elif ws and target != '/w':
+                # an upgrade request that no WebSocket route takes is closed without a response, whoever sends it (as an
+                # unrouted plain request is answered 404 for everybody): nothing is served
                 want = 'dropped'
             elif listed_peer or listed_fwd:
                 want = 'forbidden'
@@ -175,11 +186,11 @@ def server_part(ctx):
                 want = 'served'
             cls = 'dropped' if g == 'noresp' else 'forbidden' if g.startswith('403:') else 'served' if g[:4] in ('200:', '301:') else 'other'
             if cls == 'served':
-                body_ok = {'/f': '200:body:' + b'PAGE'.hex(), '/r': '301:loc:' + b'/elsewhere'.hex(), '/d/x.txt': '200:body:' + b'DIRFILE'.hex(), '/p': '200:body:' + b'UPSTREAM'.hex()}[target]
+                body_ok = ('200:body:' + b'UPSTREAM'.hex()) if ws else {'/f': '200:body:' + b'PAGE'.hex(), '/w': '200:body:' + b'PAGE'.hex(), '/r': '301:loc:' + b'/elsewhere'.hex(), '/d/x.txt': '200:body:' + b'DIRFILE'.hex(), '/p': '200:body:' + b'UPSTREAM'.hex()}[target]
                 if g != body_ok:
                     cls = 'other'
             if cls != want:
-                ctx.report({'line': line[:4000], 'kind': 'server-e2e', 'request': [peer, xff, target], 'mode': mode, 'list': lst}, g[:200], want,
+                ctx.report({'line': line[:4000], 'kind': 'server-e2e', 'request': [peer, xff, target, 'upgrade' if ws else 'plain'], 'mode': mode, 'list': lst}, g[:200], want,
                            cls='bl-server', failing_input=True,
                            what='real server, %s mode, list %r: client %s (X-Forwarded-For %r) asking %s got %s, expected %s' % (
                                mode, lst, peer, xff, target, g[:60], want))
